@@ -875,8 +875,12 @@ class Inliner:
     def inline_generator_loop(self, st, callee, depth):
         """`for T in gen(args): BODY` with a generator helper whose yields are plain statements: the helper's body with every
         `yield E` replaced by `T = E; BODY`"""
-        if st.orelse or _has_loop_jump_own(st.body):
-            raise CannotInline('generator consumed by a loop with break / continue / else')
+        if st.orelse or _has_break_own(st.body):
+            raise CannotInline('generator consumed by a loop with break / else')
+        # `continue` in the consuming loop resumes the generator behind the yield: that is the `continue` of the generator's own loop
+        # when every yield is the last thing an iteration of that loop does
+        if _has_loop_jump_own(st.body) and not _yields_in_loop_tail(callee.body, False):
+            raise CannotInline('generator consumed by a loop with continue, and a yield that is not the last action of an iteration')
         wrap = ast.Module(body=callee.body, type_ignores=[])
         ys = [n for n in _own_nodes(wrap) if isinstance(n, (ast.Yield, ast.YieldFrom))]
         yst = [n for n in _own_nodes(wrap) if isinstance(n, ast.Expr) and isinstance(n.value, ast.Yield) and n.value.value is not None]
@@ -1058,6 +1062,45 @@ class Inliner:
         for s in stmts:
             ast.fix_missing_locations(s)
         return stmts
+
+
+def _has_break_own(stmts):
+    """break that belongs to the loop whose body `stmts` is"""
+    for s_ in stmts:
+        if isinstance(s_, ast.Break):
+            return True
+        if isinstance(s_, (ast.For, ast.While, ast.AsyncFor, ast.FunctionDef, ast.AsyncFunctionDef, ast.ClassDef)):
+            continue
+        for fld in ('body', 'orelse', 'finalbody'):
+            if _has_break_own(getattr(s_, fld, []) or []):
+                return True
+        for h in getattr(s_, 'handlers', []) or []:
+            if _has_break_own(h.body):
+                return True
+    return False
+
+
+def _yields_in_loop_tail(stmts, tail):
+    """is every `yield` statement in `stmts` the last action of an iteration of a loop of the generator itself?"""
+    for i, s_ in enumerate(stmts):
+        last = tail and i == len(stmts) - 1
+        if isinstance(s_, ast.Expr) and isinstance(s_.value, (ast.Yield, ast.YieldFrom)):
+            if not last:
+                return False
+        elif isinstance(s_, ast.If):
+            if not (_yields_in_loop_tail(s_.body, last) and _yields_in_loop_tail(s_.orelse, last)):
+                return False
+        elif isinstance(s_, (ast.For, ast.While)):
+            if not _yields_in_loop_tail(s_.body, True) or any(isinstance(x, (ast.Yield, ast.YieldFrom)) for o in s_.orelse for x in ast.walk(o)):
+                return False
+        elif isinstance(s_, (ast.With, ast.Try)):
+            if any(isinstance(x, (ast.Yield, ast.YieldFrom)) for x in ast.walk(s_)):
+                return False        # (leaving the block between yield and resume: not followed here)
+        elif isinstance(s_, (ast.FunctionDef, ast.AsyncFunctionDef, ast.ClassDef)):
+            continue
+        elif any(isinstance(x, (ast.Yield, ast.YieldFrom)) for x in ast.walk(s_)):
+            return False
+    return True
 
 
 def _has_loop_jump_own(stmts):
@@ -1269,6 +1312,27 @@ class _QuantToLoop(ast.NodeTransformer):
                 for n in ast.walk(loop.target):
                     if isinstance(n, ast.Name):
                         n.ctx = ast.Store()
+                out = [ast.Assign(targets=[ast.Name(id=acc, ctx=ast.Store())], value=ast.List(elts=[], ctx=ast.Load()), type_comment=None), loop]
+                if isinstance(st, ast.Return):
+                    out.append(ast.Return(value=ast.Name(id=acc, ctx=ast.Load())))
+                for o in out:
+                    ast.copy_location(o, st)
+                    ast.fix_missing_locations(o)
+                return out
+        # `return list(helper(..))` / `x = list(helper(..))` with such a helper (a generator with statements): the accumulator loop over it
+        if isinstance(st, (ast.Return, ast.Assign)) and isinstance(st.value, ast.Call) and isinstance(st.value.func, ast.Name) and \
+                st.value.func.id == 'list' and len(st.value.args) == 1 and not st.value.keywords and isinstance(st.value.args[0], ast.Call) and \
+                (isinstance(st, ast.Return) or (len(st.targets) == 1 and isinstance(st.targets[0], ast.Name))):
+            inner_call = st.value.args[0]
+            f_ = inner_call.func
+            nm_ = f_.id if isinstance(f_, ast.Name) else f_.attr if isinstance(f_, ast.Attribute) else None
+            acc = st.targets[0].id if isinstance(st, ast.Assign) else 'collected__items'
+            used = {n.id for n in ast.walk(st.value) if isinstance(n, ast.Name)}
+            if nm_ in self.names and acc not in used and 'collected__item' not in used:
+                item = ast.Name(id='collected__item', ctx=ast.Store())
+                inner = ast.Expr(value=ast.Call(func=ast.Attribute(value=ast.Name(id=acc, ctx=ast.Load()), attr='append', ctx=ast.Load()),
+                                                args=[ast.Name(id='collected__item', ctx=ast.Load())], keywords=[]))
+                loop = ast.For(target=item, iter=inner_call, body=[inner], orelse=[], type_comment=None)
                 out = [ast.Assign(targets=[ast.Name(id=acc, ctx=ast.Store())], value=ast.List(elts=[], ctx=ast.Load()), type_comment=None), loop]
                 if isinstance(st, ast.Return):
                     out.append(ast.Return(value=ast.Name(id=acc, ctx=ast.Load())))
